@@ -46,7 +46,7 @@ WORKERS = {"quick": 16, "thorough": 16}
 WATCHDOG = {"quick": 600, "thorough": 3000}
 
 KINDS = ["select", "select", "setop", "insert", "update", "delete", "create", "drop"]
-SPECIAL_KINDS = {"update-join", "for-update-of", "update-from", "dialect-sensitive-constants", "dialect-sensitive-set", "sign-twins", "mutable-builder", "mutable-builder-setop"}
+SPECIAL_KINDS = {"update-join", "for-update-of", "update-from", "dialect-sensitive-constants", "dialect-sensitive-set", "sign-twins", "mutable-builder", "mutable-builder-setop", "unnamed-source-by-replace"}
 
 
 def special_programs(d):
@@ -102,6 +102,17 @@ def special_programs(d):
     q = p.call(q, "where", p.bin(">", p.call(t1, "field", "a"), p.un("neg", p.call(t1, "field", "b"))))
     q = p.call(q, "limit", 5)
     out.append((p.prog(dialect=d, kind="sign-twins"), q.i))
+    # a FROM source swapped for an un-named subquery / set operation by replace_table (never named by from_() or join())
+    p = P()
+    t1 = p.new("Table", "t1")
+    t2 = p.new("Table", "t2")
+    sub = p.call(p.call(Cls(d), "from_", t2), "select", p.call(t2, "field", "a"), p.call(t2, "field", "id"))
+    q = p.call(p.call(p.call(Cls(d), "from_", t1), "select", p.call(t1, "field", "a")), "where", p.bin(">", p.call(t1, "field", "id"), 3))
+    q = p.call(q, "replace_table", t1, sub)
+    so = p.call(sub, "union", p.call(p.call(Cls(d), "from_", t2), "select", p.call(t2, "field", "b"), p.call(t2, "field", "id")))
+    q2 = p.call(p.call(p.call(Cls(d), "from_", t1), "select", "a"), "replace_table", t1, so)
+    outer = p.call(p.call(p.call(Cls(d), "from_", p.call(q, "as_", "w")), "select", "a"), "where", p.call(p.call(t2, "field", "id"), "isin", q2))
+    out.append((p.prog(dialect=d, kind="unnamed-source-by-replace"), outer.i))
     # builders in mutable mode (immutable=False): builder calls change the receiver by contract, a render never does
     p = P()
     t1 = p.new("Table", "t1")
